@@ -339,7 +339,19 @@ def run(ctx):
             continue
         args = [Sym("self_"), Sym("repr")] if meth == "operate_unary" else [Sym("self_"), Sym("other"), Sym("repr")]
         ps = [p for p in Interp(fb, P2()).run(bs[0], args) if p.status == "return"]
-        s = show(ps[0].result) if len(ps) == 1 else "%d paths" % len(ps)
+
+        def strip_ok(v):
+            # `x?`, `.and_then(f)` and `match x { Ok(v) => .. }` all continue with the success value of x
+            if isinstance(v, App):
+                if v.fn == ".0" and len(v.args) == 1 and isinstance(v.args[0], App) and v.args[0].fn == "as:Ok" and len(v.args[0].args) == 1:
+                    return strip_ok(v.args[0].args[0])
+                if v.fn == "ok" and len(v.args) == 1:
+                    return strip_ok(v.args[0])
+                return App(v.fn, [strip_ok(a) for a in v.args])
+            return v
+        # error propagation paths (Err of one of the three steps handed on) are not the wrapper's business
+        succ = [p for p in ps if not (isinstance(p.result, Variant) and p.result.variant == "Err")]
+        s = show(strip_ok(succ[0].result)) if len(succ) == 1 else "%d paths" % len(succ)
         if re.match(pat, s):
             chk.ok("R10.3", "Calculate::%s = from_deepex(apply(to_deepex(..)))" % meth, "", loc(bs[0]["span"]))
         else:
